@@ -19,6 +19,18 @@
 #include "varintPFOR.h"
 
 /* ------------------------------------------------------------ part 1 */
+/* the fault plan applies to the call under test only; everything else the
+ * scenario does (set-up, verification, follow-up use) runs fenced and guarded
+ * but without injection */
+static long g_plan;   /* k: which allocation of the call under test fails (0 = none) */
+static long g_A;      /* allocations performed by the call under test */
+static long g_inj;    /* injections that actually happened */
+#define FAULTED(stmt)                                                          \
+    (shim_reset(), shim_fail_at = g_plan, g_rc2 = GUARDED(stmt), shim_fail_at = 0, \
+     g_A = shim_calls, g_inj = shim_failed, g_rc2)
+#define SAFE(stmt) (shim_fail_at = 0, GUARDED(stmt))
+static int g_rc2;
+
 typedef struct scen {
     const char *name;
     size_t n;
@@ -39,6 +51,24 @@ static void mk(scen *s, const char *name, size_t n, int shape) {
     }
 }
 
+/* follow-up use of a dictionary (guarded: a corrupted object must show up as
+ * a fault event, not kill the driver) */
+static int dict_roundtrip(varintDict *d, const uint64_t *xs, size_t n, uint8_t *buf, uint64_t *ys) {
+    size_t w = varintDictEncodeWithDict(buf, d, xs, n);
+    size_t rr = w ? varintDictDecodeInto(buf, w, ys, n) : 0;
+    return rr == n && !memcmp(ys, xs, n * 8);
+}
+static int dict_rebuild_roundtrip(varintDict *d, const uint64_t *xs, size_t n, uint8_t *buf, uint64_t *ys) {
+    /* first a smaller build, then the full one: exercises the capacity bookkeeping */
+    if (varintDictBuild(d, xs, n > 20 ? 20 : n) != 0) {
+        return 0;
+    }
+    if (varintDictBuild(d, xs, n) != 0) {
+        return 0;
+    }
+    return dict_roundtrip(d, xs, n, buf, ys);
+}
+
 typedef struct outcome {
     int f;          /* fault code */
     int ok;         /* call reported success */
@@ -56,8 +86,7 @@ static outcome run_api(const char *api, const scen *s) {
     memset(ys, 0x77, sizeof(ys));
     if (!strcmp(api, "DictEncode")) {
         size_t w = 0;
-        o.f = GUARDED(w = varintDictEncode(buf, s->xs, n));
-        shim_fail_at = 0; /* injection applies to the call under test only */
+        o.f = FAULTED(w = varintDictEncode(buf, s->xs, n));
         o.ok = w > 0;
         o.val = (long)w;
         if (o.ok && !o.f) {
@@ -66,8 +95,7 @@ static outcome run_api(const char *api, const scen *s) {
         }
     } else if (!strcmp(api, "DictEncodedSize")) {
         size_t w = 0;
-        o.f = GUARDED(w = varintDictEncodedSize(s->xs, n));
-        shim_fail_at = 0; /* injection applies to the call under test only */
+        o.f = FAULTED(w = varintDictEncodedSize(s->xs, n));
         o.ok = w > 0;
         o.val = (long)w;
         if (o.ok && !o.f) {
@@ -77,48 +105,52 @@ static outcome run_api(const char *api, const scen *s) {
         varintDictStats st;
         memset(&st, 0, sizeof(st));
         int r = -1;
-        o.f = GUARDED(r = varintDictGetStats(s->xs, n, &st));
-        shim_fail_at = 0; /* injection applies to the call under test only */
+        o.f = FAULTED(r = varintDictGetStats(s->xs, n, &st));
         o.ok = r == 0;
         if (o.ok && !o.f) {
             o.same = st.totalCount == n && st.totalBytes == varintDictEncode(buf, s->xs, n);
         }
     } else if (!strcmp(api, "DictBuild")) {
-        varintDict *d = varintDictCreate(); /* created outside the fault window */
+        varintDict *d = NULL;
+        (void)SAFE(d = varintDictCreate()); /* created outside the fault window */
         int r = -1;
-        o.f = GUARDED(r = varintDictBuild(d, s->xs, n));
-        shim_fail_at = 0; /* injection applies to the call under test only */
+        o.f = FAULTED(r = varintDictBuild(d, s->xs, n));
         o.ok = r == 0;
         if (!o.f) {
+            int good = 0;
             if (o.ok) {
-                size_t w = varintDictEncodeWithDict(buf, d, s->xs, n);
-                size_t rr = w ? varintDictDecodeInto(buf, w, ys, n) : 0;
-                o.same = rr == n && !memcmp(ys, s->xs, n * 8);
+                int ff = SAFE(good = dict_roundtrip(d, s->xs, n, buf, ys));
+                o.same = !ff && good;
             } else {
                 /* object must remain usable: build again without fault */
-                int r2 = varintDictBuild(d, s->xs, n);
-                size_t w = r2 == 0 ? varintDictEncodeWithDict(buf, d, s->xs, n) : 0;
-                size_t rr = w ? varintDictDecodeInto(buf, w, ys, n) : 0;
-                o.same = rr == n && !memcmp(ys, s->xs, n * 8) ? -1 : 0; /* 0 = unusable afterwards */
+                int ff = SAFE(good = dict_rebuild_roundtrip(d, s->xs, n, buf, ys));
+                o.same = (!ff && good) ? -1 : 0; /* 0 = unusable afterwards */
+                if (ff) {
+                    o.f = ff; /* the object crashed its next user */
+                }
             }
-            varintDictFree(d);
+            if (!o.f) {
+                (void)SAFE(varintDictFree(d));
+            }
         }
     } else if (!strcmp(api, "DictCreate")) {
         varintDict *d = NULL;
-        o.f = GUARDED(d = varintDictCreate());
-        shim_fail_at = 0; /* injection applies to the call under test only */
+        o.f = FAULTED(d = varintDictCreate());
         o.ok = d != NULL;
         if (!o.f && d) {
-            o.same = varintDictBuild(d, s->xs, n) == 0;
-            varintDictFree(d);
+            int good = 0;
+            int ff = SAFE(good = dict_rebuild_roundtrip(d, s->xs, n, buf, ys));
+            o.same = !ff && good;
+            if (!ff) {
+                (void)SAFE(varintDictFree(d));
+            }
         }
     } else if (!strcmp(api, "DictDecode") || !strcmp(api, "DictDecodeInto")) {
         size_t w = varintDictEncode(buf, s->xs, n);
         if (!strcmp(api, "DictDecode")) {
             size_t cnt = 0;
             uint64_t *out = NULL;
-            o.f = GUARDED(out = varintDictDecode(buf, w, &cnt));
-        shim_fail_at = 0; /* injection applies to the call under test only */
+            o.f = FAULTED(out = varintDictDecode(buf, w, &cnt));
             o.ok = out != NULL;
             if (!o.f && out) {
                 o.same = cnt == n && !memcmp(out, s->xs, n * 8);
@@ -126,8 +158,7 @@ static outcome run_api(const char *api, const scen *s) {
             }
         } else {
             size_t r = 0;
-            o.f = GUARDED(r = varintDictDecodeInto(buf, w, ys, n));
-        shim_fail_at = 0; /* injection applies to the call under test only */
+            o.f = FAULTED(r = varintDictDecodeInto(buf, w, ys, n));
             o.ok = r > 0;
             if (o.ok && !o.f) {
                 o.same = r == n && !memcmp(ys, s->xs, n * 8);
@@ -138,8 +169,7 @@ static outcome run_api(const char *api, const scen *s) {
         memset(&m, 0x5A, sizeof(m));
         varintPFORComputeThreshold(s->xs, (uint32_t)n, 95, &ref);
         varintWidth w = 0;
-        o.f = GUARDED(w = varintPFORComputeThreshold(s->xs, (uint32_t)n, 95, &m));
-        shim_fail_at = 0; /* injection applies to the call under test only */
+        o.f = FAULTED(w = varintPFORComputeThreshold(s->xs, (uint32_t)n, 95, &m));
         /* the only failure indication is the zeroed metadata (count 0) */
         o.ok = m.count == (uint32_t)n;
         o.val = w;
@@ -151,8 +181,7 @@ static outcome run_api(const char *api, const scen *s) {
         varintPFORMeta m;
         memset(&m, 0, sizeof(m));
         size_t w = 0;
-        o.f = GUARDED(w = varintPFOREncode(buf, s->xs, (uint32_t)n, 95, &m));
-        shim_fail_at = 0; /* injection applies to the call under test only */
+        o.f = FAULTED(w = varintPFOREncode(buf, s->xs, (uint32_t)n, 95, &m));
         o.ok = w > 0;
         o.val = (long)w;
         if (o.ok && !o.f) {
@@ -168,9 +197,8 @@ static outcome run_api(const char *api, const scen *s) {
         }
         if (!strcmp(api, "FloatEncode")) {
             size_t w = 0;
-            o.f = GUARDED(w = varintFloatEncode(buf, dx, n, VARINT_FLOAT_PRECISION_FULL,
+            o.f = FAULTED(w = varintFloatEncode(buf, dx, n, VARINT_FLOAT_PRECISION_FULL,
                                                 VARINT_FLOAT_MODE_DELTA_EXPONENT));
-        shim_fail_at = 0; /* injection applies to the call under test only */
             o.ok = w > 0;
             if (o.ok && !o.f) {
                 size_t r = varintFloatDecode(buf, n, dy);
@@ -181,8 +209,7 @@ static outcome run_api(const char *api, const scen *s) {
                                          VARINT_FLOAT_MODE_COMMON_EXPONENT);
             size_t r = 0;
             memset(dy, 0x11, sizeof(dy));
-            o.f = GUARDED(r = varintFloatDecode(buf, n, dy));
-        shim_fail_at = 0; /* injection applies to the call under test only */
+            o.f = FAULTED(r = varintFloatDecode(buf, n, dy));
             o.ok = r > 0;
             if (o.ok && !o.f) {
                 o.same = r == w && !memcmp(dx, dy, n * 8);
@@ -191,8 +218,7 @@ static outcome run_api(const char *api, const scen *s) {
     } else if (!strcmp(api, "AdaptiveCountUnique")) {
         size_t u = 0;
         size_t ref = varintAdaptiveCountUnique(s->xs, n);
-        o.f = GUARDED(u = varintAdaptiveCountUnique(s->xs, n));
-        shim_fail_at = 0; /* injection applies to the call under test only */
+        o.f = FAULTED(u = varintAdaptiveCountUnique(s->xs, n));
         o.ok = 1; /* documented: conservative estimate = count on failure */
         o.same = u == ref || u == n;
     } else if (!strncmp(api, "AdaptiveEncode", 14) || !strncmp(api, "AdaptiveDecode", 14)) {
@@ -202,12 +228,10 @@ static outcome run_api(const char *api, const scen *s) {
         if (!strncmp(api, "AdaptiveEncode", 14)) {
             size_t w = 0;
             if (type < 0) {
-                o.f = GUARDED(w = varintAdaptiveEncode(buf, s->xs, n, &m));
-        shim_fail_at = 0; /* injection applies to the call under test only */
+                o.f = FAULTED(w = varintAdaptiveEncode(buf, s->xs, n, &m));
             } else {
-                o.f = GUARDED(w = varintAdaptiveEncodeWith(buf, s->xs, n,
+                o.f = FAULTED(w = varintAdaptiveEncodeWith(buf, s->xs, n,
                                                            (varintAdaptiveEncodingType)type, &m));
-        shim_fail_at = 0; /* injection applies to the call under test only */
             }
             o.ok = w > 0;
             o.val = (long)w;
@@ -222,8 +246,7 @@ static outcome run_api(const char *api, const scen *s) {
                                                            (varintAdaptiveEncodingType)type, &m);
             size_t r = 0;
             (void)w;
-            o.f = GUARDED(r = varintAdaptiveDecode(buf2, ys, n, NULL));
-        shim_fail_at = 0; /* injection applies to the call under test only */
+            o.f = FAULTED(r = varintAdaptiveDecode(buf2, ys, n, NULL));
             o.ok = r > 0;
             if (o.ok && !o.f) {
                 o.same = r == n && !memcmp(ys, s->xs, n * 8);
@@ -237,31 +260,19 @@ static outcome run_api(const char *api, const scen *s) {
 }
 
 static void codec_faults(const char *api, const scen *s) {
-    /* count allocations of the call */
-    shim_forget_all();
-    shim_reset();
-    shim_fail_at = 0;
-    outcome base = run_api(api, s);
-    long A = shim_calls;
-    long leak0 = shim_live();
-    ev_begin("AF");
-    ev_str("api", api);
-    ev_str("scen", s->name);
-    ev_int("fk", 0);
-    ev_int("nalloc", A);
-    ev_int("fault", base.f);
-    ev_int("ok", base.ok);
-    ev_int("same", base.same);
-    ev_int("leak", leak0);
-    ev_int("injected", 0);
-    ev_end();
-    for (long k = 1; k <= A; k++) {
+    /* pass 0 counts the allocations A of the call under test, pass k injects */
+    long A = 0;
+    for (long k = 0; k <= A; k++) {
         shim_forget_all();
-        shim_reset();
-        shim_fail_at = k;
+        g_plan = k;
+        g_A = 0;
+        g_inj = 0;
+        shim_always = 1; /* every allocation of the scenario is fenced and tracked */
         outcome o = run_api(api, s);
-        long injected = shim_failed;
-        shim_fail_at = 0;
+        shim_always = 0;
+        if (k == 0) {
+            A = g_A;
+        }
         ev_begin("AF");
         ev_str("api", api);
         ev_str("scen", s->name);
@@ -271,9 +282,10 @@ static void codec_faults(const char *api, const scen *s) {
         ev_int("ok", o.ok);
         ev_int("same", o.same);
         ev_int("leak", o.f ? 0 : shim_live());
-        ev_int("injected", injected);
+        ev_int("injected", g_inj);
         ev_end();
     }
+    g_plan = 0;
 }
 
 /* ------------------------------------------------------------ part 2 */
@@ -335,7 +347,7 @@ int main(int argc, char **argv) {
     tr_open(argv[3]);
     guard_install();
     rng_seed(env_seed());
-    shim_fence = 0;
+    shim_fence = 1; /* overruns of library-owned blocks fault immediately */
     /* operands / lists used by the bitmap steps (same as BitmapSet!Operands) */
     strcpy(K[0].name, "K1"); K[0].niv = 1; K[0].iv[0][0] = 0; K[0].iv[0][1] = 5000;
     strcpy(K[1].name, "K2"); K[1].niv = 2; K[1].iv[0][0] = 4000; K[1].iv[0][1] = 4200;
